@@ -1,4 +1,4 @@
-HOOK_COMMITS = ["c99bd4d", "2b50260", "a9b7862", "cbfbc5a", "1e95adf", "8d6ac0c"]
+HOOK_COMMITS = ["c99bd4d", "2b50260", "a9b7862", "cbfbc5a", "1e95adf", "8d6ac0c", "6a082ac", "fc71b26"]
 NOT_APPLICABLE = {}
 _KB_NOTE = ("K = 16 is a compile-time constant of the code: exhaustive TLC runs use K = 2/3, the code is bound at K = 16 by TLC simulation "
             "walks (with scripted prefixes that fill a bucket / set up the IP-limit corner) and seeded random driver runs, each validated by TLC "
@@ -107,3 +107,24 @@ META["C06"] = dict(
          "independent layout (= the input for well-formed cases), decode(encode(m)) = m, never a panic.",
     note=_CODEC_NOTE + " Known finding on the pinned tree (F10): bytes after the inner list of a NODES response are parsed as further records "
          "(formula C06.InnerListLength, listed in known_findings.json).")
+# ---------------------------------------------------------------------------------------------- C18
+META["C18"] = dict(
+   technique="TLA+ transcription of the GCRA rate limiter, of the two-stage packet filter with the process-global permit/ban list and of the receive task's handle_inbound "
+             "(Filter.tla: rate_limiter.rs, filter/mod.rs, permit_ban.rs, recv.rs) model-checked exhaustively with TLC at three levels (MC_Limiter, MC_Filter, MC_Recv: every arrival "
+             "sequence, prune interleaving, ban/permit combination within the bounds; a second, never-pruned copy is stepped side by side); TLC goal counterexamples, simulation walks "
+             "and seeded random drivers executed on the real Limiter (explicit time), the real Filter + RateLimiter + PERMIT_BAN_LIST (virtual time by an ageing hook) and the real "
+             "RecvHandler::handle_inbound fed with real datagrams; every recorded step validated by TLC: strict conformance (verdicts, stored arrival times, ban list with expiry, tracking "
+             "maps, expected-response set) and the monitor formulas C18.Window / WindowIp / WindowTotal / WindowNode / RefusedWithinQuota / PruneNeutral / BanPermit / ExcessNotBanned / "
+             "BanTooShort on a ledger of observations",
+   text="Design level: for 1-2 keys / 2 IPs x 2 node ids, bursts 1..4, up to 6-7 arrivals over 3-7 ticks, prune anywhere, every initial combination of ban/permit entries plus "
+        "list operations, datagrams with / without a source id or undecodable, sources with an expected response: the window bound (let-through <= burst + rate x window for every window), "
+        "'conforming traffic is never refused', prune neutrality, stage verdicts vs ban/permit lists and ban duration hold in every reachable state, and the stronger exact "
+        "characterisation (refused iff it does not fit with those let through) holds for the limiter. Code level: hundreds (quick) to thousands (thorough) of generated and random "
+        "behaviours (up to 4 IPs, 5 node ids, bursts up to 8, batches up to 3 tokens) on the real code, each step judged by TLC. Bounded model checking + conformance, not a proof for all sizes.",
+   note="Quotas with period divisible by burst only (stated assumption). The limiter level is exact (explicit time); at the filter and receive-task levels the RateLimiter reads the real "
+        "clock on top of the virtual time passed by RateLimiter::verif_age (one tick = 10 s, the real run time of a behaviour is microseconds; a behaviour slower than half a tick would be "
+        "re-run). The receive loop (recv_from, the 30 s prune timer) is not executed: handle_inbound and prune_limiter are called directly; the handler owns a loopback UDP socket that is never "
+        "read. max_nodes_per_ip / max_bans_per_ip are switched off where 'never refused' is judged. The window formulas count a datagram as let through only if every stage it took passed it "
+        "and exclude datagrams whose IP / node id was on the permit list or from whose source a response was expected (the weakest reading of the statement). Ban expiry (unban_nodes_check) "
+        "belongs to the handler, not to the filter: 'banned for at least the configured duration' is judged on the recorded expiry instant.")
+HOOK_COMMITS.append("69be644")
